@@ -34,12 +34,15 @@ def main():
     ap.add_argument("--quiet", action="store_true")
     ap.add_argument("--digests")
     ap.add_argument("--selftest-determinism", action="store_true")
+    ap.add_argument("--selftest-standin", action="store_true")
     ap.add_argument("--no-evidence", action="store_true")
     args = ap.parse_args()
     from dsim import driver
     real_stdout = sys.stdout
     if args.replay:
         return driver.cmd_replay(args.replay, args.quiet, real_stdout)
+    if args.selftest_standin:
+        return driver.cmd_selftest_standin(real_stdout)
     if args.selftest_determinism:
         return driver.cmd_selftest(args.prop, args.seed, real_stdout)
     if not args.prop:
